@@ -104,3 +104,31 @@ Proof. now destruct b. Qed.
 
 Lemma upd_upd {A} (l : list A) i x y : upd (upd l i x) i y = upd l i y.
 Proof. revert i; induction l as [|z l IH]; intros [|i]; simpl; auto. now rewrite IH. Qed.
+
+(* ---- the head of a trace is not taken by the handler in s (step's lazy search moves on) ---- *)
+Definition Blocked (sh : shape) (s : st) (tr : list event) : Prop :=
+  exists e tr', tr = e :: tr' /\ handle sh s e = None.
+
+Lemma Blocked_cons sh s e tr : handle sh s e = None -> Blocked sh s (e :: tr).
+Proof. intro H. now exists e, tr. Qed.
+
+(* a fragment that is empty or starts with an event that is not taken *)
+Lemma Blocked_app sh s fr tr :
+  (fr = [] \/ Blocked sh s fr) -> Blocked sh s tr -> Blocked sh s (fr ++ tr).
+Proof.
+  intros [->|(e & fr' & -> & H)] B; [exact B|]. exists e, (fr' ++ tr). split; [reflexivity|assumption].
+Qed.
+
+Lemma Acc_skip' sh f s s1 tr :
+  Blocked sh s tr -> eps sh s = Some s1 -> Acc sh f s1 tr -> Acc sh (S f) s tr.
+Proof. intros (e & tr' & -> & H) E A. eapply Acc_skip; eauto. Qed.
+
+(* a run whose first event is taken by the handler in s itself *)
+Lemma Acc_direct sh f s e s1 tr : handle sh s e = Some s1 -> AccR sh s (e :: tr) -> Acc sh f s (e :: tr).
+Proof.
+  intros H (fin & Hr & R). rewrite (run_cons_handle _ _ _ _ _ H) in Hr.
+  eapply Acc_cons; eauto. now exists fin.
+Qed.
+
+Lemma AccR_of_Acc sh s tr : Acc sh eps_fuel s tr -> AccR sh s tr.
+Proof. apply Acc_AccR. lia. Qed.
